@@ -14,10 +14,24 @@ fn custom_doc(rng: &mut Rng) -> String {
     format!("{}{}@@@{}", pred, sep, post)
 }
 
+/// brackets, backtick runs of mixed lengths and short words: the look-ahead / code-span cache interplay
+pub fn backtick_soup(rng: &mut Rng) -> String {
+    let k = rng.range(2, 12);
+    let mut s = String::new();
+    for _ in 0..k {
+        s.push_str(*rng.pick(&["`", "`", "``", "```", "[", "]", "](x)", "![", "a", "b ", " ", "\\`", "*", "<http://a.b>", "&amp;", "\n"]));
+    }
+    s
+}
+
 pub fn run(n: usize, rng: &mut Rng, rep: &mut Report) {
     // (a)+(b): dual-run probe over documents x configurations
     let mut cases: Vec<(cfg::Cfg, String, bool)> = vec![];
-    for _ in 0..n { cases.push((cfg::sample(rng, false, true), doc::any_doc(rng), rng.chance(1, 3))); }
+    for s in ["[`a` `", "x [ `a` `b", "![`a` `", "[``a]`](x)", "``[`a`](x)", "``` `a``b` ``c``"] { cases.push((cfg::Cfg::stock(), s.to_string(), false)); }
+    for _ in 0..n {
+        let d = if rng.chance(1, 4) { backtick_soup(rng) } else { doc::any_doc(rng) };
+        cases.push((cfg::sample(rng, false, true), d, rng.chance(1, 3)));
+    }
     let res = crate::run::big_stack(move || {
         let mut rep = Report::new();
         for (c, d, with_custom) in cases {
@@ -39,6 +53,9 @@ pub fn run(n: usize, rng: &mut Rng, rep: &mut Report) {
                     (Ok(a), Ok(b)) => if a != b { rep.violation("lookahead-alters-parse", input.clone(), format!("html without probe {:?}, with silent calls interleaved {:?}", a, b)); },
                     (Err(_), _) => { rep.stats.count("skipped_panic_C01"); continue; }
                     (Ok(_), Err(e)) => rep.violation("lookahead-alters-parse", input.clone(), format!("panics only with silent calls interleaved: {}", e)),
+                }
+                if let Some(m) = log.contradicted.first() {
+                    rep.violation("lookahead-contradicts", input.clone(), format!("inline rule #{} succeeded in look-ahead (skip_token) at {} with length {:?} but the real call there gave {:?}", m.rule_idx, m.at, m.silent, m.real));
                 }
                 if let Some(m) = log.mismatches.first() {
                     let class = if !m.silent_kept_tree { "lookahead-touches-tree" } else if !m.silent_kept_pos { "lookahead-changes-state" } else { "lookahead-contradicts" };
